@@ -179,3 +179,19 @@ def r_sib_r_c07_6(ctx):
     from .c02 import r5 as no_read_ahead
     no_read_ahead(ctx)
 
+
+
+@rule("R-C07-7", min_instances=3, title="the receive loop iterates, it does not recurse: a frame that is not handed to the caller (an answered ping, an unreported pong, a non-final fragment) costs no stack level, so the 1000th ping of one call is answered like the first")
+def r7(ctx):
+    loc = ctx.index.loc(ctx.index.func(Q).node)
+    for state in ("idle", "text", "binary"):
+        I, outs = leaves(ctx, state)
+        rec = [(o, e) for o in outs for e in o.effects if e.name.startswith("recursion:")]
+        kept = [o for o in outs if o.kind == "backedge"]
+        if not kept:
+            raise AnalysisError(f"no path of the receive loop goes on to a further frame (state {state})")
+        ctx.ob(f"{Q}:{state}:next-frame-without-a-deeper-stack", not rec,
+               f"{len(kept)} paths go on to the next frame by iteration" if not rec else
+               f"{rec[0][1].name.split(':', 1)[1]} calls itself to take the next frame ({len(rec)} of {len(kept)} continuing paths): every ping answered inside one receive call adds a stack "
+               f"level, the call dies with RecursionError after about a thousand control frames / fragments and the pings behind it are never answered",
+               (rec[0][1].loc if rec else loc) or loc, {"path": path_text(rec[0][0])} if rec else None)
